@@ -712,7 +712,13 @@ fn child_work(fx: &Fixture, batch: &[Value], jobs: &[Job], want_alone: bool, emi
             emit(format!("D {} {}", i, out_line(&o)));
         }
     }
-    // 3. tables for the model: recorded opaque plugins, and the single-query function on every expanded query
+    emit_tables(fx, batch, emit);
+}
+
+/// tables for the model: recorded opaque plugins, the single-query function on every expanded query, and the
+/// item-by-item expansion of every query
+fn emit_tables(fx: &Fixture, batch: &[Value], emit: &mut dyn FnMut(String)) {
+    let app = &fx.app;
     let logs: Vec<Arc<Mutex<Vec<TableRec>>>> = fx.plugins.iter().map(|_| Arc::new(Mutex::new(vec![]))).collect();
     let rec_plugins: Vec<Arc<dyn InputPlugin>> = app
         .input_plugins
@@ -892,17 +898,24 @@ fn parse_report(text: &str, n_jobs: usize, n_batch: usize, want_alone: bool) -> 
 
 /// run the work in a forked child: `secs` alarm, 6 GiB address space (16 worker threads reserve a lot)
 fn forked(fx: &Fixture, batch: &[Value], jobs: &[Job], want_alone: bool, secs: u32) -> Report {
+    let text = fork_text(secs, &mut |emit| child_work(fx, batch, jobs, want_alone, emit));
+    parse_report(&text, jobs.len(), batch.len(), want_alone)
+}
+
+/// run `work` in a forked child (alarm, address-space limit, stderr to /dev/null) and return the lines it emitted
+/// (everything up to the point where it died, if it died)
+fn fork_text(secs: u32, work: &mut dyn FnMut(&mut dyn FnMut(String))) -> String {
     for attempt in 0..5 {
-        if let Some(r) = forked_once(fx, batch, jobs, want_alone, secs) {
+        if let Some(r) = fork_text_once(secs, work) {
             return r;
         }
         // pipe() or fork() failed (process table full on a loaded machine): wait and try again
         std::thread::sleep(std::time::Duration::from_millis(500 * (attempt + 1)));
     }
-    parse_report("", jobs.len(), batch.len(), want_alone)
+    String::new()
 }
 
-fn forked_once(fx: &Fixture, batch: &[Value], jobs: &[Job], want_alone: bool, secs: u32) -> Option<Report> {
+fn fork_text_once(secs: u32, work: &mut dyn FnMut(&mut dyn FnMut(String))) -> Option<String> {
     unsafe {
         let mut fds = [0i32; 2];
         if libc::pipe(fds.as_mut_ptr()) != 0 {
@@ -936,7 +949,16 @@ fn forked_once(fx: &Fixture, batch: &[Value], jobs: &[Job], want_alone: bool, se
                     off += n as usize;
                 }
             };
-            child_work(fx, batch, jobs, want_alone, &mut emit);
+            work(&mut emit);
+            // coverage measurement only (scratch build with `--cfg covflush -C instrument-coverage`): `_exit` skips
+            // the atexit handler that writes the profile
+            #[cfg(covflush)]
+            {
+                extern "C" {
+                    fn __llvm_profile_write_file() -> i32;
+                }
+                __llvm_profile_write_file();
+            }
             libc::_exit(0);
         }
         libc::close(fds[1]);
@@ -952,8 +974,7 @@ fn forked_once(fx: &Fixture, batch: &[Value], jobs: &[Job], want_alone: bool, se
         libc::close(fds[0]);
         let mut status = 0i32;
         libc::waitpid(pid, &mut status, 0);
-        let text = String::from_utf8_lossy(&buf).to_string();
-        Some(parse_report(&text, jobs.len(), batch.len(), want_alone))
+        Some(String::from_utf8_lossy(&buf).to_string())
     }
 }
 
@@ -1932,8 +1953,8 @@ fn bal_case(ctx: &mut Ctx, par: usize, qs: &[Value], branch: &str) {
             if all != want {
                 ctx.fail(idx, "balance/not-a-partition", format!("bins {:?} are not a partition of 0..{} (parallelism {})", bins, qs.len(), par));
             }
-            if !qs.is_empty() && bins.len() != par {
-                ctx.fail(idx, "balance/bin-count", format!("{} bins for parallelism {}", bins.len(), par));
+            if !qs.is_empty() && bins.len() != par.min(qs.len()) {
+                ctx.fail(idx, "balance/bin-count", format!("{} bins for parallelism {} and {} queries", bins.len(), par, qs.len()));
             }
             if bins.iter().filter(|b| !b.is_empty()).count() >= 2 {
                 ctx.nontrivial(&format!("bal|{}|{}|{:?}", par, qs.len(), bins.iter().map(|b| b.len()).collect::<Vec<_>>()));
@@ -2029,7 +2050,7 @@ fn plugin_configs() -> Vec<(&'static str, Vec<PluginSpec>, bool)> {
         ("grid+lb_categorical_nodefault", vec![PluginSpec::Grid, cat_nodefault()], false),
         ("vertex_rtree", vec![PluginSpec::VertexRtree { tolerance_m: Some(60.0) }], false),
         ("grid+vertex_rtree+lb_haversine", vec![PluginSpec::Grid, PluginSpec::VertexRtree { tolerance_m: None }, PluginSpec::LbHaversine], false),
-        ("edge_rtree", vec![PluginSpec::EdgeRtree { tolerance_m: Some(80.0) }], true),
+        ("edge_rtree", vec![PluginSpec::EdgeRtree { tolerance_m: Some(1500.0) }], true),
         ("none_edge_oriented", vec![], true),
         ("grid+inject+lb_numeric", vec![PluginSpec::Grid, inj(Some(true)), PluginSpec::LbNum { col: Some(LB_COL.to_string()) }], false),
         // user-defined plugins (public trait, public `input_plugins` field): expand only SOME queries, fail on some,
@@ -2337,6 +2358,11 @@ pub fn run(ctx: &mut Ctx, profile: Profile) -> &'static str {
         bal_case(ctx, 4, &mk(vec![1, 4, 1, 2, 1, 4, 1, 2, 1, 4, 1, 2]), "balance_repo_test");
     }
 
+    // ---- entry points and builders ----
+    entry_streams(ctx, &fixtures, profile, tag);
+    builder_streams(ctx, tag);
+    config_stream(ctx, &root, tag);
+
     // ---- generated batches ----
     let n_cases = match profile {
         Profile::C06 => ctx.n(1200, 6000),
@@ -2370,4 +2396,1167 @@ pub fn run(ctx: &mut Ctx, profile: Profile) -> &'static str {
     drop(zero);
     let _ = std::fs::remove_dir_all(&root);
     "non-trivial: a batch run that returned at least two responses (distinct by plugin configuration, configured parallelism, batch size, kinds of query in the batch, number of runs compared), or a load-balancing call that filled at least two bins"
+}
+
+// =============================================================================================
+// entry points: get_queries, run with a per-run configuration and a response sink, CompassAppBindings::run_queries,
+// the plugin builders, CompassApp::try_from from TOML
+//
+// Case lines (model: lean/Compass/Model/BatchEntry.lean, driver lean/Compass/Drv/C06.lean):
+//   `gq <json>`                                      the real `value.get_queries()`        -> `ok n json…` | `err`
+//   `call <selfPar> <persist> <env> <runcfg> <fmt> <plugins> <entry> <respond>`   the real `app.run` / `get_queries` + `run` /
+//        `run_queries`, with an arbitrary per-run configuration                     -> `ok n …` | `err <Kind>` | `panic` | `diverges`
+//   `ibuild <params> <parsedString> <parsedJson> <n probes…>`   the real `InjectPluginBuilder::build` and the built plugin on probes
+//   `lbuild <fmt> <params> <n probes…>`                         the real `LoadBalancerBuilder::build` and the built plugin on probes
+//   `stages <n> (name 0|1)…`                         the real `CompassApp::try_from` from a (mutated) TOML: which stage's error
+//                                                    it reports, given which stages fail on their own
+// Oracle keys: entry/get-queries, run-config/accepted-invalid, run-config/rejected-valid, sink/changes-responses,
+//   sink/write-error-swallowed, entry/value-differs, entry/texts-differ, entry/malformed-text-accepted, builder/panic,
+//   builder/accepted-invalid, builder/rejected-valid, builder/plugin-differs, config/panic, config/timeout,
+//   config/accepted-invalid, config/rejected-valid, config/path-differs
+
+use routee_compass::app::bindings::CompassAppBindings;
+use routee_compass::app::compass::compass_app_error::CompassAppError;
+use routee_compass::app::compass::compass_json_extensions::CompassJsonExtensions;
+use routee_compass::app::compass::config::builders::InputPluginBuilder;
+use routee_compass::app::compass::config::compass_configuration_error::CompassConfigurationError;
+use routee_compass::plugin::input::default::inject::inject_builder::InjectPluginBuilder;
+use routee_compass::plugin::input::default::load_balancer::builder::LoadBalancerBuilder;
+
+struct HarnessBindings<'a> {
+    app: &'a CompassApp,
+}
+
+impl CompassAppBindings for HarnessBindings<'_> {
+    fn from_config_toml_string(_config_string: String, _original_file_path: String) -> Result<Self, CompassAppError> {
+        Err(CompassAppError::InternalError("the harness wraps an existing application".to_string()))
+    }
+    fn app(&self) -> &CompassApp {
+        self.app
+    }
+}
+
+const DEV_FULL: &str = "/dev/full";
+
+/// JSON text -> value with every float parsed by `str::parse::<f64>` (correctly rounded; `serde_json::from_str`
+/// without its `float_roundtrip` feature may be one ulp off, and the responses of `run_queries` come back as texts)
+fn parse_exact(text: &str) -> Option<Value> {
+    fn ws(b: &[u8], i: &mut usize) {
+        while *i < b.len() && matches!(b[*i], b' ' | b'\n' | b'\r' | b'\t') {
+            *i += 1;
+        }
+    }
+    fn string(b: &[u8], i: &mut usize) -> Option<String> {
+        let start = *i;
+        *i += 1;
+        while *i < b.len() {
+            match b[*i] {
+                b'\\' => *i += 2,
+                b'"' => {
+                    *i += 1;
+                    return serde_json::from_str::<String>(std::str::from_utf8(&b[start..*i]).ok()?).ok();
+                }
+                _ => *i += 1,
+            }
+        }
+        None
+    }
+    fn value(b: &[u8], i: &mut usize) -> Option<Value> {
+        ws(b, i);
+        match *b.get(*i)? {
+            b'{' => {
+                *i += 1;
+                let mut m = Map::new();
+                ws(b, i);
+                if *b.get(*i)? == b'}' {
+                    *i += 1;
+                    return Some(Value::Object(m));
+                }
+                loop {
+                    ws(b, i);
+                    let k = string(b, i)?;
+                    ws(b, i);
+                    if *b.get(*i)? != b':' {
+                        return None;
+                    }
+                    *i += 1;
+                    let v = value(b, i)?;
+                    m.insert(k, v);
+                    ws(b, i);
+                    match *b.get(*i)? {
+                        b',' => *i += 1,
+                        b'}' => {
+                            *i += 1;
+                            return Some(Value::Object(m));
+                        }
+                        _ => return None,
+                    }
+                }
+            }
+            b'[' => {
+                *i += 1;
+                let mut a = vec![];
+                ws(b, i);
+                if *b.get(*i)? == b']' {
+                    *i += 1;
+                    return Some(Value::Array(a));
+                }
+                loop {
+                    a.push(value(b, i)?);
+                    ws(b, i);
+                    match *b.get(*i)? {
+                        b',' => *i += 1,
+                        b']' => {
+                            *i += 1;
+                            return Some(Value::Array(a));
+                        }
+                        _ => return None,
+                    }
+                }
+            }
+            b'"' => string(b, i).map(Value::String),
+            b't' if b[*i..].starts_with(b"true") => {
+                *i += 4;
+                Some(Value::Bool(true))
+            }
+            b'f' if b[*i..].starts_with(b"false") => {
+                *i += 5;
+                Some(Value::Bool(false))
+            }
+            b'n' if b[*i..].starts_with(b"null") => {
+                *i += 4;
+                Some(Value::Null)
+            }
+            _ => {
+                let start = *i;
+                while *i < b.len() && matches!(b[*i], b'0'..=b'9' | b'-' | b'+' | b'.' | b'e' | b'E') {
+                    *i += 1;
+                }
+                let t = std::str::from_utf8(&b[start..*i]).ok()?;
+                if let Ok(u) = t.parse::<u64>() {
+                    Some(Value::from(u))
+                } else if let Ok(n) = t.parse::<i64>() {
+                    Some(Value::from(n))
+                } else {
+                    serde_json::Number::from_f64(t.parse::<f64>().ok()?).map(Value::Number)
+                }
+            }
+        }
+    }
+    let b = text.as_bytes();
+    let mut i = 0;
+    let v = value(b, &mut i)?;
+    ws(b, &mut i);
+    if i == b.len() {
+        Some(v)
+    } else {
+        None
+    }
+}
+
+fn call_err_kind(e: &CompassAppError) -> String {
+    match e {
+        CompassAppError::CompassConfigurationError(CompassConfigurationError::SerdeDeserializationError(_)) => "RunConfig".to_string(),
+        CompassAppError::InternalError(s) if s.starts_with("failure writing to /dev/full") || s.starts_with("failure flushing") => "SinkWrite".to_string(),
+        CompassAppError::InternalError(s) if s.starts_with("failure writing to") || s.starts_with("failure opening file") => "SinkOpen".to_string(),
+        CompassAppError::CompassFailure(s) if s.contains("iterations_per_flush") => "FlushRate".to_string(),
+        CompassAppError::JsonError { .. } => "NotJson".to_string(),
+        other => {
+            let t = other.to_string();
+            if t.contains("cannot find min bin of empty slice") {
+                "MinBinEmpty".to_string()
+            } else {
+                format!("Other:{}", error_kind(&t))
+            }
+        }
+    }
+}
+
+#[derive(Clone, Debug)]
+enum Entry {
+    /// `app.run(vec, cfg)`
+    Vec(Vec<Value>),
+    /// `value.get_queries()` then `run`
+    Value(Value),
+    /// `run_queries(texts, cfg text)`
+    Texts(Vec<String>, Option<String>),
+}
+
+#[derive(Clone, Debug)]
+struct EntryJob {
+    entry: Entry,
+    run_cfg: Option<Value>,
+}
+
+fn call_entry(app: &CompassApp, job: &EntryJob) -> RunOut {
+    let r = std::panic::catch_unwind(std::panic::AssertUnwindSafe(|| -> Result<Vec<Value>, String> {
+        match &job.entry {
+            Entry::Vec(b) => app.run(b.clone(), job.run_cfg.as_ref()).map_err(|e| call_err_kind(&e)),
+            Entry::Value(v) => match v.get_queries() {
+                Err(_) => Err("NotABatch".to_string()),
+                Ok(b) => app.run(b, job.run_cfg.as_ref()).map_err(|e| call_err_kind(&e)),
+            },
+            Entry::Texts(ts, c) => HarnessBindings { app }
+                .run_queries(ts.clone(), c.clone())
+                .map(|rs| rs.iter().map(|s| parse_exact(s).unwrap_or(Value::Null)).collect())
+                .map_err(|e| call_err_kind(&e)),
+        }
+    }));
+    match r {
+        Err(_) => RunOut::Panic,
+        Ok(Err(k)) => RunOut::Err(k),
+        Ok(Ok(rs)) => RunOut::Ok(rs.iter().map(|r| enc(&canon_response(r))).collect()),
+    }
+}
+
+/// one template of a per-run configuration value, and whether it must be accepted
+fn run_cfg_part(rng: &mut Rng, fx: &Fixture, key: &str, case_tag: usize) -> Option<(Value, bool)> {
+    let work_file = |name: &str| fx.dir.join(name).to_str().unwrap_or_default().to_string();
+    let json_fmt = |nd: bool| json!({"type": "json", "newline_delimited": nd});
+    let rate_ok = [json!(1), json!(7), Value::Null][rng.below(3)].clone();
+    let rate_nonpos = [json!(0), json!(-3)][rng.below(2)].clone();
+    let rate_bad = [json!("x"), json!(1.5)][rng.below(2)].clone();
+    match key {
+        "parallelism" => match rng.below(14) {
+            0..=2 => None,
+            3..=6 => Some((json!(1 + rng.below(16)), true)),
+            7 => Some((json!(0), true)),
+            8 => Some((json!("abc"), false)),
+            9 => Some((json!(-1), false)),
+            10 => Some((json!(1.5), false)),
+            11 => Some((Value::Null, false)),
+            12 => Some((json!(4.0), false)),
+            _ => Some((json!([2]), false)),
+        },
+        "response_persistence_policy" => match rng.below(10) {
+            0..=2 => None,
+            3 | 4 => Some((json!("persist_response_in_memory"), true)),
+            5 => Some((json!("discard_response_from_memory"), true)),
+            6 => Some((json!({"discard_response_from_memory": null}), true)),
+            7 => Some((json!("PersistResponseInMemory"), false)),
+            8 => Some((json!(1), false)),
+            _ => Some((Value::Null, false)),
+        },
+        _ => match rng.below(22) {
+            0..=4 => None,
+            5 => Some((json!({"type": "none"}), true)),
+            6 => Some((json!({"type": "none", "filename": 7}), true)),
+            7 | 8 => Some((json!({"type": "file", "filename": work_file(&format!("sink_{}_{}.json", case_tag, rng.below(1000))), "format": json_fmt(rng.chance(1, 2))}), true)),
+            9 => Some((json!({"type": "file", "filename": work_file(&format!("sink_{}_r.json", case_tag)), "format": json_fmt(true), "file_flush_rate": rate_ok}), true)),
+            10 => Some((json!({"type": "file", "filename": work_file(&format!("sink_{}_z.json", case_tag)), "format": json_fmt(true), "file_flush_rate": rate_nonpos}), true)),
+            11 | 12 | 13 => Some((json!({"type": "file", "filename": DEV_FULL, "format": json_fmt(true)}), true)),
+            14 => Some((json!({"type": "file", "filename": work_file("no_such_dir/sink.json"), "format": json_fmt(true)}), true)),
+            15 => Some((json!({"type": "file", "filename": work_file("sink_bad_rate.json"), "format": json_fmt(true), "file_flush_rate": rate_bad}), false)),
+            16 => Some((json!({"type": "parquet"}), false)),
+            17 => Some((json!({"filename": "x"}), false)),
+            18 => Some((json!("none"), false)),
+            19 => Some((json!({"type": "file", "format": json_fmt(true)}), false)),
+            20 => Some((json!({"type": "file", "filename": 5, "format": json_fmt(true)}), false)),
+            _ => Some((json!({"type": "file", "filename": work_file("sink_nofmt.json"), "format": {"type": "yaml"}}), false)),
+        },
+    }
+}
+
+/// how the environment of the harness treats a sink file: (can be opened, writes succeed)
+fn sink_env(name: &str) -> (bool, bool) {
+    if name == DEV_FULL {
+        (true, false)
+    } else if name.contains("no_such_dir") {
+        (false, false)
+    } else {
+        (true, true)
+    }
+}
+
+fn sink_file_names(cfg: &Option<Value>) -> Vec<String> {
+    cfg.as_ref().and_then(|c| c.get("response_output_policy")).and_then(|p| p.get("filename")).and_then(|f| f.as_str()).map(|s| vec![s.to_string()]).unwrap_or_default()
+}
+
+#[allow(clippy::too_many_arguments)]
+fn entry_case_line(fx: &Fixture, persist_cfg: bool, rep: &Report, batch_for_fmt: &[Value], job: &EntryJob, fmt: &str) -> String {
+    let names = sink_file_names(&job.run_cfg);
+    let mut s = format!("call {} {} {}", fx.app.parallelism, if persist_cfg { 1 } else { 0 }, names.len());
+    for n in &names {
+        let (o, w) = sink_env(n);
+        s.push_str(&format!(" {} {} {}", hex(n), if o { 1 } else { 0 }, if w { 1 } else { 0 }));
+    }
+    match &job.run_cfg {
+        None => s.push_str(" n"),
+        Some(c) => s.push_str(&format!(" s {}", enc(c))),
+    }
+    s.push_str(&format!(" {} {}", fmt, fx.plugins.len()));
+    for (i, p) in fx.plugins.iter().enumerate() {
+        s.push(' ');
+        s.push_str(&p.model_tokens(rep.tables.get(&i)));
+    }
+    match &job.entry {
+        Entry::Vec(b) => {
+            s.push_str(&format!(" vec {}", b.len()));
+            for q in b {
+                s.push(' ');
+                s.push_str(&enc(q));
+            }
+        }
+        Entry::Value(v) => s.push_str(&format!(" value {}", enc(v))),
+        Entry::Texts(ts, c) => {
+            s.push_str(" texts");
+            match c {
+                None => s.push_str(" n"),
+                Some(c) => match serde_json::from_str::<Value>(c) {
+                    Ok(v) => s.push_str(&format!(" s {}", enc(&v))),
+                    Err(_) => s.push_str(" x"),
+                },
+            }
+            s.push_str(&format!(" {}", ts.len()));
+            for t in ts {
+                match serde_json::from_str::<Value>(t) {
+                    Ok(v) => s.push_str(&format!(" t {}", enc(&v))),
+                    Err(_) => s.push_str(" x"),
+                }
+            }
+        }
+    }
+    let _ = batch_for_fmt;
+    s.push_str(&format!(" {}", rep.respond.len()));
+    for (k, v) in &rep.respond {
+        s.push(' ');
+        s.push_str(&hex(k));
+        s.push(' ');
+        s.push_str(v);
+    }
+    s
+}
+
+/// the batch an entry stands for (for the tables and the baseline), when it stands for one
+fn entry_batch(e: &Entry) -> Option<Vec<Value>> {
+    match e {
+        Entry::Vec(b) => Some(b.clone()),
+        Entry::Value(v) => v.get_queries().ok(),
+        Entry::Texts(ts, _) => ts.iter().map(|t| serde_json::from_str::<Value>(t).ok()).collect(),
+    }
+}
+
+fn entry_case(ctx: &mut Ctx, fx: &Fixture, persist_cfg: bool, entry: Entry, run_cfg: Option<Value>, cfg_valid: bool, branch: &str) {
+    let Some(idx) = ctx.begin() else { return };
+    let batch = entry_batch(&entry).unwrap_or_default();
+    let job = EntryJob { entry: entry.clone(), run_cfg: run_cfg.clone() };
+    // baseline: the same batch through `run` with the same parallelism / persistence but without an output policy
+    let mut base_cfg = run_cfg.clone();
+    if let Some(Value::Object(m)) = &mut base_cfg {
+        m.shift_remove("response_output_policy");
+    }
+    let base_cfg_valid = cfg_valid || {
+        // validity of the remaining two keys alone is not known separately: only use the baseline when the whole is valid
+        false
+    };
+    let base = EntryJob { entry: Entry::Vec(batch.clone()), run_cfg: base_cfg };
+    let jobs = vec![job.clone(), base];
+    let mut run = |secs: u32| {
+        fork_text(secs, &mut |emit| {
+            for (j, jb) in jobs.iter().enumerate() {
+                emit(format!("J {} {}", j, out_line(&call_entry(&fx.app, jb))));
+            }
+            emit_tables(fx, &batch, emit);
+            emit("END".to_string());
+        })
+    };
+    let mut text = run(15);
+    if !text.contains("\nEND") || text.contains(" panic") {
+        ctx.count("child_retried");
+        text = run(90);
+    }
+    let rep = parse_report(&text, 2, batch.len(), false);
+    let fmt = fmt_table(fx, &batch);
+    ctx.emit(idx, entry_case_line(fx, persist_cfg, &rep, &batch, &job, &fmt), out_line(&rep.jobs[0]));
+    ctx.count(branch);
+    ctx.count(match &entry {
+        Entry::Vec(_) => "entry_vec",
+        Entry::Value(_) => "entry_value",
+        Entry::Texts(..) => "entry_texts",
+    });
+    // ---- oracle ----
+    let names = sink_file_names(&run_cfg);
+    let failing_sink = names.iter().any(|n| n == DEV_FULL);
+    let texts_malformed = matches!(&entry, Entry::Texts(ts, c) if ts.iter().any(|t| serde_json::from_str::<Value>(t).is_err()) || c.as_ref().map(|c| serde_json::from_str::<Value>(c).is_err()).unwrap_or(false));
+    let not_a_batch = matches!(&entry, Entry::Value(v) if v.get_queries().is_err());
+    match &rep.jobs[0] {
+        RunOut::Dead => ctx.fail(idx, "batch/timeout", format!("the call did not return: entry {:?} cfg {:?}", clip(&format!("{:?}", entry)), run_cfg)),
+        RunOut::Panic => ctx.fail(idx, "batch/panic", format!("the call panicked: cfg {:?} under {}", run_cfg, fx.label)),
+        RunOut::Err(k) => {
+            ctx.count(&format!("call_err_{}", k));
+            if k == "RunConfig" && cfg_valid {
+                ctx.fail(idx, "run-config/rejected-valid", format!("valid per-run configuration {} rejected", clip(&run_cfg.clone().unwrap_or(Value::Null).to_string())));
+            }
+            if k == "NotJson" && !texts_malformed {
+                ctx.fail(idx, "entry/texts-differ", "run_queries reports a JSON error on well-formed texts".to_string());
+            }
+            if k == "NotABatch" && !not_a_batch {
+                ctx.fail(idx, "entry/get-queries", "a batch value was refused".to_string());
+            }
+            if k.starts_with("Other") {
+                ctx.fail(idx, "batch/whole-batch-error", format!("the call returned Err({}) under {} with cfg {:?}", k, fx.label, run_cfg));
+            }
+        }
+        RunOut::Ok(rs) => {
+            if !cfg_valid {
+                ctx.fail(idx, "run-config/accepted-invalid", format!("invalid per-run configuration {} accepted", clip(&run_cfg.clone().unwrap_or(Value::Null).to_string())));
+            }
+            if texts_malformed {
+                ctx.fail(idx, "entry/malformed-text-accepted", "run_queries accepted a text that is not JSON".to_string());
+            }
+            if not_a_batch {
+                ctx.fail(idx, "entry/get-queries", "a value that is not a batch was run".to_string());
+            }
+            if let (true, RunOut::Ok(b)) = (base_cfg_valid, &rep.jobs[1]) {
+                let persist = run_cfg.as_ref().and_then(|c| c.get("response_persistence_policy")).map(|p| p == &json!("persist_response_in_memory")).unwrap_or(persist_cfg);
+                let _ = persist;
+                // a sink never changes what is returned (JSON format), whatever the entry
+                if !failing_sink && sorted(b.clone()) != sorted(rs.clone()) {
+                    let key = match &entry {
+                        Entry::Vec(_) => "sink/changes-responses",
+                        Entry::Value(_) => "entry/value-differs",
+                        Entry::Texts(..) => "entry/texts-differ",
+                    };
+                    ctx.fail(idx, key, format!("{} responses, the same batch through run without output policy gives {} (cfg {:?}, {})", rs.len(), b.len(), run_cfg, fx.label));
+                }
+                // a sink whose writes fail must fail the call as soon as there is a response to write: count them
+                // with the persisting baseline of the alone runs (every query yields at least one response)
+                if failing_sink && !batch.is_empty() {
+                    ctx.fail(idx, "sink/write-error-swallowed", format!("every write to the sink {} fails, the batch has {} queries (each gets a response that must be persisted), yet the call returned Ok with {} responses (cfg {}, {})", DEV_FULL, batch.len(), rs.len(), clip(&run_cfg.clone().unwrap_or(Value::Null).to_string()), fx.label));
+                }
+            }
+            if rs.len() >= 2 {
+                ctx.nontrivial(&format!("call|{}|{}|{:?}|{}", fx.label, rs.len(), names, branch));
+            }
+        }
+    }
+}
+
+fn gq_case(ctx: &mut Ctx, v: &Value) {
+    let Some(idx) = ctx.begin() else { return };
+    let r = std::panic::catch_unwind(|| v.get_queries());
+    let line = match &r {
+        Err(_) => "panic".to_string(),
+        Ok(Err(_)) => "err".to_string(),
+        Ok(Ok(qs)) => {
+            let mut s = format!("ok {}", qs.len());
+            for q in qs {
+                s.push(' ');
+                s.push_str(&enc(q));
+            }
+            s
+        }
+    };
+    ctx.emit(idx, format!("gq {}", enc(v)), line);
+    ctx.count("get_queries");
+    // oracle: an array is the batch; an object is a batch of itself unless it has `queries`, which must be an array
+    let want: Option<Vec<Value>> = match v {
+        Value::Array(a) => Some(a.clone()),
+        Value::Object(m) => match m.get("queries") {
+            None => Some(vec![v.clone()]),
+            Some(Value::Array(a)) => Some(a.clone()),
+            Some(_) => None,
+        },
+        _ => None,
+    };
+    let got = match r {
+        Ok(Ok(qs)) => Some(Some(qs)),
+        Ok(Err(_)) => Some(None),
+        Err(_) => None,
+    };
+    match got {
+        None => ctx.fail(idx, "batch/panic", format!("get_queries panicked on {}", clip(&v.to_string()))),
+        Some(g) => {
+            if g != want {
+                ctx.fail(idx, "entry/get-queries", format!("get_queries({}) = {:?}, expected {:?}", clip(&v.to_string()), g.map(|x| x.len()), want.map(|x| x.len())));
+            }
+        }
+    }
+}
+
+fn batch_value(rng: &mut Rng, fx: &Fixture, profile: Profile) -> Value {
+    let n = rng.below(5);
+    let qs: Vec<Value> = (0..n).map(|_| gen_query(fx, rng, profile).q).collect();
+    match rng.below(12) {
+        0..=3 => Value::Array(qs),
+        4 | 5 => json!({"queries": qs}),
+        6 => json!({"queries": qs, "note": "extra fields are ignored"}),
+        7 => valid_query(fx, rng).q,
+        8 => json!({"queries": {"a": 1}}),
+        9 => json!({"queries": "all"}),
+        10 => [json!(5), json!("batch"), Value::Null, json!(true), json!(2.5)][rng.below(5)].clone(),
+        _ => json!({"queries": null, "origin_vertex": 0}),
+    }
+}
+
+fn builder_kind(e: &CompassConfigurationError) -> &'static str {
+    match e {
+        CompassConfigurationError::ExpectedFieldForComponent(..) => "MissingField",
+        CompassConfigurationError::ExpectedFieldWithType(..) => "WrongType",
+        CompassConfigurationError::SerdeDeserializationError(..) => "Serde",
+        CompassConfigurationError::UserConfigurationError(..) => "UserConfig",
+        _ => "Other",
+    }
+}
+
+fn probe_line(p: &Arc<dyn InputPlugin>, probes: &[Value]) -> String {
+    let mut s = String::new();
+    for q in probes {
+        let mut v = q.clone();
+        let r = std::panic::catch_unwind(std::panic::AssertUnwindSafe(|| p.process(&mut v)));
+        match r {
+            Err(_) => s.push_str(" panic"),
+            Ok(Ok(())) => s.push_str(&format!(" ok {}", enc(&v))),
+            Ok(Err(e)) => s.push_str(&format!(" perr {}", variant(&e))),
+        }
+    }
+    s
+}
+
+fn opt_json(v: &Option<Value>) -> String {
+    match v {
+        None => "n".to_string(),
+        Some(v) => format!("s {}", enc(v)),
+    }
+}
+
+fn ibuild_case(ctx: &mut Ctx, params: &Value, must: Option<bool>, branch: &str) {
+    let Some(idx) = ctx.begin() else { return };
+    let value_text = params.get("value").and_then(|v| v.as_str()).unwrap_or("");
+    let parsed_string: Option<Value> = serde_json::from_str(&format!("\"{}\"", value_text)).ok();
+    let parsed_json: Option<Value> = serde_json::from_str(value_text).ok();
+    let probes = vec![json!({}), json!({"injected": 1, "other": true}), json!(5), json!({"k": null}), json!([1])];
+    let r = std::panic::catch_unwind(std::panic::AssertUnwindSafe(|| InjectPluginBuilder {}.build(params)));
+    let line = match &r {
+        Err(_) => "panic".to_string(),
+        Ok(Err(e)) => format!("err {}", builder_kind(e)),
+        Ok(Ok(p)) => format!("ok{}", probe_line(p, &probes)),
+    };
+    let mut case = format!("ibuild {} {} {} {}", enc(params), opt_json(&parsed_string), opt_json(&parsed_json), probes.len());
+    for q in &probes {
+        case.push(' ');
+        case.push_str(&enc(q));
+    }
+    ctx.emit(idx, case, line);
+    ctx.count(branch);
+    match (&r, must) {
+        (Err(_), _) => ctx.fail(idx, "builder/panic", format!("InjectPluginBuilder::build panicked on {}", params)),
+        (Ok(Ok(_)), Some(false)) => ctx.fail(idx, "builder/accepted-invalid", format!("InjectPluginBuilder::build accepted {}", params)),
+        (Ok(Err(e)), Some(true)) => ctx.fail(idx, "builder/rejected-valid", format!("InjectPluginBuilder::build rejected {}: {}", params, e)),
+        (Ok(Ok(p)), Some(true)) => {
+            // the built plugin writes the configured value under the configured key
+            let key = params.get("key").and_then(|k| k.as_str()).unwrap_or("");
+            let mut q = json!({});
+            let _ = p.process(&mut q);
+            let want = match params.get("format").and_then(|f| f.as_str()) {
+                Some("string") => parsed_string.clone(),
+                _ => parsed_json.clone(),
+            };
+            if q.get(key) != want.as_ref() {
+                ctx.fail(idx, "builder/plugin-differs", format!("the plugin built from {} turned {{}} into {}", params, q));
+            }
+            ctx.nontrivial(&format!("ibuild|{}", params));
+        }
+        _ => {}
+    }
+}
+
+fn lbuild_case(ctx: &mut Ctx, fx_fmt_nums: &[f64], params: &Value, must: Option<bool>, branch: &str) {
+    let Some(idx) = ctx.begin() else { return };
+    let probes = vec![
+        json!({"w": 3, "cls": "a"}),
+        json!({"w": 2.5, "cls": "zzz", "query_weight_estimate": 4}),
+        json!({"w": "heavy", "cls": 7}),
+        json!({"query_weight_estimate": 9, "cls": "b"}),
+        json!({}),
+        json!(5),
+    ];
+    let r = std::panic::catch_unwind(std::panic::AssertUnwindSafe(|| LoadBalancerBuilder {}.build(params)));
+    let haversine = params.get("weight_heuristic").and_then(|h| h.get("type")).and_then(|t| t.as_str()) == Some("haversine");
+    let line = match &r {
+        Err(_) => "panic".to_string(),
+        Ok(Err(e)) => format!("err {}", builder_kind(e)),
+        Ok(Ok(_)) if haversine => "ok haversine".to_string(),
+        Ok(Ok(p)) => format!("ok custom{}", probe_line(p, &probes)),
+    };
+    // how `json!(f64)` prints the weights that may be written
+    let mut nums: Vec<f64> = fx_fmt_nums.to_vec();
+    fn walk(v: &Value, out: &mut Vec<f64>) {
+        match v {
+            Value::Number(n) => out.extend(n.as_f64()),
+            Value::Array(xs) => xs.iter().for_each(|x| walk(x, out)),
+            Value::Object(m) => m.values().for_each(|x| walk(x, out)),
+            _ => {}
+        }
+    }
+    walk(params, &mut nums);
+    probes.iter().for_each(|p| walk(p, &mut nums));
+    let mut seen = HashSet::new();
+    let items: Vec<String> = nums.iter().filter(|f| seen.insert(f.to_bits())).map(|f| format!("{} {}", f.to_bits(), hex(&serde_json::to_string(&json!(f)).unwrap_or_default()))).collect();
+    let mut case = format!("lbuild {} {} {} {}", items.len(), items.join(" "), enc(params), probes.len()).replace("  ", " ");
+    for q in &probes {
+        case.push(' ');
+        case.push_str(&enc(q));
+    }
+    ctx.emit(idx, case, line);
+    ctx.count(branch);
+    match (&r, must) {
+        (Err(_), _) => ctx.fail(idx, "builder/panic", format!("LoadBalancerBuilder::build panicked on {}", params)),
+        (Ok(Ok(_)), Some(false)) => ctx.fail(idx, "builder/accepted-invalid", format!("LoadBalancerBuilder::build accepted {}", params)),
+        (Ok(Err(e)), Some(true)) => ctx.fail(idx, "builder/rejected-valid", format!("LoadBalancerBuilder::build rejected {}: {}", params, e)),
+        (Ok(Ok(_)), Some(true)) => ctx.nontrivial(&format!("lbuild|{}", params)),
+        _ => {}
+    }
+}
+
+fn builder_streams(ctx: &mut Ctx, tag: u64) {
+    // inject: hand-written, then generated
+    let ok = Some(true);
+    let bad = Some(false);
+    for (p, must) in [
+        (json!({"type": "inject", "key": "k", "value": "7", "format": "json"}), ok),
+        (json!({"type": "inject", "key": "k", "value": "{\"a\": [1, 2.5, null]}", "format": "json", "overwrite": false}), ok),
+        (json!({"type": "inject", "key": "k", "value": "plain text", "format": "string", "overwrite": true}), ok),
+        (json!({"type": "inject", "key": "k", "value": "tab\\tnew\\nline \\u00e9", "format": "string"}), ok),
+        (json!({"type": "inject", "key": "k", "value": "a \"quoted\" word", "format": "string"}), bad),
+        (json!({"type": "inject", "key": "k", "value": "back\\slash", "format": "string"}), bad),
+        (json!({"type": "inject", "key": "k", "value": "{not json", "format": "json"}), bad),
+        (json!({"type": "inject", "key": "k", "value": "", "format": "json"}), bad),
+        (json!({"type": "inject", "key": "k", "value": "", "format": "string"}), ok),
+        // the `toml` format is declared but not implemented: an error, not a panic while the application is built
+        (json!({"type": "inject", "key": "k", "value": "a = 1", "format": "toml"}), bad),
+        (json!({"type": "inject", "key": "k", "value": "7", "format": {"json": null}}), ok),
+        (json!({"type": "inject", "key": "k", "value": "7", "format": "yaml"}), bad),
+        (json!({"type": "inject", "key": "k", "value": "7", "format": 3}), bad),
+        (json!({"type": "inject", "key": "k", "value": "7"}), bad),
+        (json!({"type": "inject", "value": "7", "format": "json"}), bad),
+        (json!({"type": "inject", "key": 5, "value": "7", "format": "json"}), bad),
+        (json!({"type": "inject", "key": "k", "format": "json"}), bad),
+        (json!({"type": "inject", "key": "k", "value": 7, "format": "json"}), bad),
+        (json!({"type": "inject", "key": "k", "value": "7", "format": "json", "overwrite": "no"}), bad),
+        (json!({"type": "inject", "key": "k", "value": "7", "format": "json", "overwrite": null}), bad),
+        (json!({"type": "inject", "key": "", "value": "null", "format": "json"}), ok),
+        (json!([1, 2]), bad),
+        (json!(5), bad),
+    ] {
+        ibuild_case(ctx, &p, must, "inject_builder_corpus");
+    }
+    let n = ctx.n(150, 2000);
+    for k in 0..n {
+        let mut rng = Rng::for_case(ctx.seed, tag * 100 + 7, k as u64);
+        let mut m = Map::new();
+        m.insert("type".into(), json!("inject"));
+        let mut must = true;
+        match rng.below(8) {
+            0 => must = false,
+            1 => {
+                let j = junk(&mut rng);
+                if !j.is_string() {
+                    must = false;
+                }
+                m.insert("key".into(), j);
+            }
+            _ => {
+                m.insert("key".into(), json!(["k", "injected", "a b", ""][rng.below(4)]));
+            }
+        }
+        let fmt = ["json", "string", "toml", "yaml"][rng.below(4)];
+        let (text, parses): (String, bool) = match (fmt, rng.below(6)) {
+            ("json", 0) => ("{broken".to_string(), false),
+            ("json", 1) => ("[1, 2, {\"x\": null}]".to_string(), true),
+            ("json", 2) => ("\"text\"".to_string(), true),
+            ("json", _) => (format!("{}", rng.range(-5, 50)), true),
+            ("string", 0) => ("has \" quote".to_string(), false),
+            ("string", 1) => ("esc \\n ok".to_string(), true),
+            ("string", 2) => ("bad \\q escape".to_string(), false),
+            ("string", _) => (format!("word{}", rng.below(9)), true),
+            (_, _) => ("a = 1".to_string(), true),
+        };
+        match rng.below(8) {
+            0 => must = false,
+            1 => {
+                m.insert("value".into(), junk(&mut rng));
+                if !m["value"].is_string() {
+                    must = false;
+                } else {
+                    must = must && fmt == "string";
+                }
+            }
+            _ => {
+                m.insert("value".into(), json!(text));
+                must = must && parses;
+            }
+        }
+        match rng.below(8) {
+            0 => must = false,
+            1 => {
+                m.insert("format".into(), junk(&mut rng));
+                must = false;
+            }
+            _ => {
+                m.insert("format".into(), json!(fmt));
+                must = must && (fmt == "json" || fmt == "string");
+            }
+        }
+        match rng.below(6) {
+            0 => {
+                m.insert("overwrite".into(), json!(rng.chance(1, 2)));
+            }
+            1 => {
+                let j = junk(&mut rng);
+                if !j.is_boolean() {
+                    must = false;
+                }
+                m.insert("overwrite".into(), j);
+            }
+            _ => {}
+        }
+        // a `junk` value that happens to be a string makes the outcome depend on its content: no expectation then
+        let uncertain = m.get("value").map(|v| v == &json!("abc") || v == &json!("")).unwrap_or(false) || m.get("format").map(|f| f.is_string() && !["json", "string", "toml", "yaml"].contains(&f.as_str().unwrap_or(""))).unwrap_or(false) || m.get("key").map(|k| k == &json!("abc")).unwrap_or(false);
+        ibuild_case(ctx, &Value::Object(m), if uncertain { None } else { Some(must) }, "inject_builder_generated");
+    }
+    // load balancer
+    let nums = [1.0, 5.5, 0.25, 2.0, 3.0, 4.0, 9.0, 2.5];
+    for (p, must) in [
+        (json!({"type": "load_balancer", "weight_heuristic": {"type": "haversine"}}), ok),
+        (json!({"type": "load_balancer", "weight_heuristic": {"type": "custom", "custom_weight_type": {"type": "numeric", "column_name": "w"}}}), ok),
+        (json!({"type": "load_balancer", "weight_heuristic": {"type": "custom", "custom_weight_type": {"type": "numeric"}}}), ok),
+        (json!({"type": "load_balancer", "weight_heuristic": {"type": "custom", "custom_weight_type": {"type": "numeric", "column_name": null}}}), ok),
+        (json!({"type": "load_balancer", "weight_heuristic": {"type": "custom", "custom_weight_type": {"type": "categorical", "column_name": "cls", "mapping": {"a": 1, "b": 5.5}, "default": 2}}}), ok),
+        (json!({"type": "load_balancer", "weight_heuristic": {"type": "custom", "custom_weight_type": {"type": "categorical", "mapping": {}}}}), ok),
+        (json!({"type": "load_balancer", "weight_heuristic": {"type": "custom", "custom_weight_type": {"type": "categorical", "column_name": "cls", "mapping": {"a": 1}, "default": null}}}), ok),
+        (json!({"type": "load_balancer", "weight_heuristic": {"type": "custom", "custom_weight_type": {"type": "categorical", "column_name": "cls"}}}), bad),
+        (json!({"type": "load_balancer", "weight_heuristic": {"type": "custom", "custom_weight_type": {"type": "categorical", "column_name": "cls", "mapping": {"a": "one"}}}}), bad),
+        (json!({"type": "load_balancer", "weight_heuristic": {"type": "custom", "custom_weight_type": {"type": "categorical", "column_name": "cls", "mapping": {"a": 1}, "default": "x"}}}), bad),
+        (json!({"type": "load_balancer", "weight_heuristic": {"type": "custom", "custom_weight_type": {"type": "ordinal"}}}), bad),
+        (json!({"type": "load_balancer", "weight_heuristic": {"type": "custom", "custom_weight_type": {"type": "numeric", "column_name": 5}}}), bad),
+        (json!({"type": "load_balancer", "weight_heuristic": {"type": "custom"}}), bad),
+        (json!({"type": "load_balancer", "weight_heuristic": {"type": "euclidean"}}), bad),
+        (json!({"type": "load_balancer", "weight_heuristic": {}}), bad),
+        (json!({"type": "load_balancer", "weight_heuristic": "haversine"}), bad),
+        (json!({"type": "load_balancer", "weight_heuristic": 3}), bad),
+        (json!({"type": "load_balancer"}), bad),
+        (json!("load_balancer"), bad),
+    ] {
+        lbuild_case(ctx, &nums, &p, must, "lb_builder_corpus");
+    }
+    let n = ctx.n(100, 1500);
+    for k in 0..n {
+        let mut rng = Rng::for_case(ctx.seed, tag * 100 + 8, k as u64);
+        let mut must = true;
+        let mut cw = Map::new();
+        let ty = ["numeric", "categorical", "numeric", "categorical", "bogus"][rng.below(5)];
+        cw.insert("type".into(), json!(ty));
+        if ty == "bogus" {
+            must = false;
+        }
+        match rng.below(5) {
+            0 => {}
+            1 => {
+                cw.insert("column_name".into(), Value::Null);
+            }
+            2 => {
+                let j = junk(&mut rng);
+                if !(j.is_string() || j.is_null()) {
+                    must = false;
+                }
+                cw.insert("column_name".into(), j);
+            }
+            _ => {
+                cw.insert("column_name".into(), json!(["w", "cls", "query_weight_estimate"][rng.below(3)]));
+            }
+        }
+        if ty == "categorical" || rng.chance(1, 5) {
+            match rng.below(6) {
+                0 => {
+                    if ty == "categorical" {
+                        must = false;
+                    }
+                }
+                1 => {
+                    let j = junk(&mut rng);
+                    if ty == "categorical" && !(j.is_object() && j.as_object().map(|o| o.values().all(|v| v.is_number())).unwrap_or(false)) {
+                        must = false;
+                    }
+                    cw.insert("mapping".into(), j);
+                }
+                _ => {
+                    cw.insert("mapping".into(), json!({"a": rng.range(1, 9), "b": rng.small_decimal(9, 1), "zzz": 0.25}));
+                }
+            }
+            match rng.below(5) {
+                0 => {
+                    cw.insert("default".into(), json!(rng.small_decimal(5, 1)));
+                }
+                1 => {
+                    cw.insert("default".into(), Value::Null);
+                }
+                2 => {
+                    let j = junk(&mut rng);
+                    if ty == "categorical" && !(j.is_number() || j.is_null()) {
+                        must = false;
+                    }
+                    cw.insert("default".into(), j);
+                }
+                _ => {}
+            }
+        }
+        let wh = match rng.below(8) {
+            0 => json!({"type": "haversine"}),
+            1 => {
+                must = false;
+                json!({"type": "custom"})
+            }
+            2 => {
+                must = false;
+                junk(&mut rng)
+            }
+            _ => json!({"type": "custom", "custom_weight_type": cw}),
+        };
+        let is_hav = wh == json!({"type": "haversine"});
+        let p = json!({"type": "load_balancer", "weight_heuristic": wh});
+        lbuild_case(ctx, &nums, &p, Some(must || is_hav), "lb_builder_generated");
+    }
+}
+
+fn entry_streams(ctx: &mut Ctx, fixtures: &[(Fixture, bool)], profile: Profile, tag: u64) {
+    // get_queries alone
+    for v in [
+        json!([]),
+        json!([{"origin_vertex": 0}, 5, [1]]),
+        json!({"origin_vertex": 0, "destination_vertex": 1}),
+        json!({"queries": []}),
+        json!({"queries": [{"origin_vertex": 0}, {"origin_vertex": 1}], "origin_vertex": 7}),
+        json!({"queries": {"origin_vertex": 0}}),
+        json!({"queries": null}),
+        json!({"queries": 3}),
+        json!({"Queries": [1]}),
+        json!({}),
+        json!(5),
+        json!("queries"),
+        Value::Null,
+        json!(true),
+        json!(1.5),
+    ] {
+        gq_case(ctx, &v);
+    }
+    if fixtures.is_empty() {
+        return;
+    }
+    let n = ctx.n(120, 1500);
+    for k in 0..n {
+        let mut rng = Rng::for_case(ctx.seed, tag * 100 + 5, k as u64);
+        let (fx, _) = &fixtures[k % fixtures.len()];
+        let v = batch_value(&mut rng, fx, profile);
+        gq_case(ctx, &v);
+    }
+    // the call with a per-run configuration, through its three entries
+    // corpus: the sink whose writes fail, under both policies (the discard policy used to swallow the error)
+    if let Some((fx, pc)) = fixtures.iter().find(|f| f.0.label == "none") {
+        let b = vec![json!({"origin_vertex": 0, "destination_vertex": 3}), json!({"origin_vertex": 1, "destination_vertex": 2})];
+        let full = |policy: &str| json!({"response_persistence_policy": policy, "response_output_policy": {"type": "file", "filename": DEV_FULL, "format": {"type": "json", "newline_delimited": true}}});
+        entry_case(ctx, fx, *pc, Entry::Vec(b.clone()), Some(full("persist_response_in_memory")), true, "corpus_failing_sink");
+        entry_case(ctx, fx, *pc, Entry::Vec(b.clone()), Some(full("discard_response_from_memory")), true, "corpus_failing_sink");
+        entry_case(ctx, fx, *pc, Entry::Vec(vec![json!(5)]), Some(full("discard_response_from_memory")), true, "corpus_failing_sink");
+        entry_case(ctx, fx, *pc, Entry::Vec(vec![]), Some(full("persist_response_in_memory")), true, "corpus_failing_sink");
+        entry_case(ctx, fx, *pc, Entry::Value(json!({"queries": b})), None, true, "corpus_entry");
+        entry_case(ctx, fx, *pc, Entry::Value(json!(5)), None, true, "corpus_entry");
+        entry_case(ctx, fx, *pc, Entry::Value(json!({"queries": 5})), Some(json!({"parallelism": "abc"})), false, "corpus_entry");
+        entry_case(ctx, fx, *pc, Entry::Texts(vec![b[0].to_string(), "{oops".to_string()], None), None, true, "corpus_entry");
+        entry_case(ctx, fx, *pc, Entry::Texts(vec![b[0].to_string(), b[1].to_string()], Some("{\"parallelism\": 3}".to_string())), Some(json!({"parallelism": 3})), true, "corpus_entry");
+        entry_case(ctx, fx, *pc, Entry::Texts(vec![b[0].to_string()], Some("not json".to_string())), None, true, "corpus_entry");
+        // a parallelism far beyond the batch size: the bins are per query at most (it used to allocate `parallelism`
+        // bins: an allocation failure aborts the process)
+        entry_case(ctx, fx, *pc, Entry::Vec(b.clone()), Some(json!({"parallelism": 4_000_000_000_000u64})), true, "corpus_huge_parallelism");
+        entry_case(ctx, fx, *pc, Entry::Vec(b.clone()), Some(json!({"parallelism": u64::MAX})), true, "corpus_huge_parallelism");
+        entry_case(ctx, fx, *pc, Entry::Vec(b.clone()), Some(json!(5)), true, "corpus_run_config");
+        entry_case(ctx, fx, *pc, Entry::Vec(b.clone()), Some(json!({"parallelism": -1})), false, "corpus_run_config");
+        entry_case(ctx, fx, *pc, Entry::Vec(b), Some(json!({"response_output_policy": {"type": "file", "filename": fx.dir.join("no_such_dir/x.json").to_str().unwrap_or_default(), "format": {"type": "json", "newline_delimited": false}}})), true, "corpus_run_config");
+    }
+    let n = ctx.n(260, 3000);
+    for k in 0..n {
+        let mut rng = Rng::for_case(ctx.seed, tag * 100 + 6, k as u64);
+        let (fx, pc) = &fixtures[k % fixtures.len()];
+        // the per-run configuration
+        let mut valid = true;
+        let mut m = Map::new();
+        // key order as the generator likes: the code reads them by name
+        let mut keys = ["parallelism", "response_persistence_policy", "response_output_policy"];
+        rng.shuffle(&mut keys);
+        for key in keys {
+            if let Some((v, ok)) = run_cfg_part(&mut rng, fx, key, k) {
+                m.insert(key.to_string(), v);
+                valid = valid && ok;
+            }
+        }
+        let cfg: Option<Value> = match rng.below(10) {
+            0 => {
+                valid = true;
+                None
+            }
+            1 => {
+                // a configuration that is not an object has no keys: nothing is overridden
+                valid = true;
+                Some([json!(5), json!("cfg"), json!([{"parallelism": "abc"}]), Value::Null][rng.below(4)].clone())
+            }
+            _ => Some(Value::Object(m)),
+        };
+        let size = rng.below(6);
+        let batch: Vec<Value> = (0..size).map(|_| gen_query(fx, &mut rng, profile).q).collect();
+        let entry = match rng.below(10) {
+            0..=4 => Entry::Vec(batch),
+            5..=7 => Entry::Value(batch_value(&mut rng, fx, profile)),
+            _ => {
+                let mut ts: Vec<String> = batch.iter().map(|q| q.to_string()).collect();
+                if rng.chance(1, 6) && !ts.is_empty() {
+                    let i = rng.below(ts.len());
+                    ts[i] = ["{oops", "", "[1,", "nul"][rng.below(4)].to_string();
+                }
+                let ct = match &cfg {
+                    None => None,
+                    Some(c) => Some(if rng.chance(1, 10) { "{bad cfg".to_string() } else { c.to_string() }),
+                };
+                Entry::Texts(ts, ct)
+            }
+        };
+        entry_case(ctx, fx, *pc, entry, cfg, valid, "generated_call");
+    }
+}
+
+// ---------------------------------------------------------------------------------------------
+// CompassApp::try_from from a (mutated) TOML: never a panic, invalid configurations rejected, valid ones accepted,
+// and with two defects at once the error of the EARLIER build stage is the one reported
+
+const STAGES: [&str; 15] = [
+    "config", "algorithm", "state", "traversal", "access", "cost", "frontier", "termination", "graph", "input_plugins", "output_plugins",
+    "parallelism", "search_orientation", "response_persistence_policy", "response_output_policy",
+];
+
+struct Mutation {
+    name: &'static str,
+    /// the build stage the edit breaks (the harness's knowledge of the configuration layout); "" when it breaks none
+    stage: &'static str,
+    /// text appended to the base configuration
+    append: String,
+    /// replacement (from, to) applied to the base configuration
+    replace: Option<(String, String)>,
+    /// must the build fail
+    must: Option<bool>,
+}
+
+fn apply_mutation(base: &str, m: &Mutation) -> String {
+    let mut t = base.to_string();
+    if let Some((from, to)) = &m.replace {
+        t = t.replacen(from.as_str(), to.as_str(), 1);
+    }
+    if m.append.starts_with("TOP:") {
+        t = format!("{}\n{}", &m.append[4..], t);
+    } else {
+        t.push_str(&m.append);
+    }
+    t
+}
+
+fn config_mutations(d: &str) -> Vec<Mutation> {
+    let rep = |name: &'static str, stage: &'static str, from: &str, to: &str, must: Option<bool>| Mutation { name, stage, append: String::new(), replace: Some((from.to_string(), to.to_string())), must };
+    let app = |name: &'static str, stage: &'static str, text: String, must: Option<bool>| Mutation { name, stage, append: text, replace: None, must };
+    let t = Some(true);
+    let f = Some(false);
+    let plug = "input_plugins = [";
+    vec![
+        app("valid", "", String::new(), f),
+        app("toml_syntax_error", "config", "\n[graph\n".to_string(), t),
+        rep("edge_file_missing", "config", "/edges.csv", "/no_such_edges.csv", t),
+        rep("vertex_file_missing", "config", "/vertices.csv\"\nverbose", "/no_such_vertices.csv\"\nverbose", t),
+        rep("speed_table_missing", "config", "/speeds.csv", "/no_such_speeds.csv", t),
+        rep("geometry_file_missing", "config", "/geoms.txt", "/no_geoms.txt", t),
+        app("algorithm_unknown", "algorithm", "\n[algorithm]\ntype = \"bogosort\"\n".to_string(), t),
+        app("algorithm_dijkstra", "", "\n[algorithm]\ntype = \"dijkstra\"\n".to_string(), None),
+        app("state_section", "", "\n[state]\nextra_distance = { distance_unit = \"miles\", initial = 0.0 }\n".to_string(), None),
+        app("state_section_bad", "state", "\n[state]\nextra = { color = \"blue\" }\n".to_string(), t),
+        rep("traversal_unknown_type", "traversal", "type = \"speed_table\"", "type = \"warp_drive\"", t),
+        rep("traversal_missing_field", "traversal", "speed_unit = \"kilometers_per_hour\"\n", "", t),
+        rep("traversal_bad_unit", "traversal", "speed_unit = \"kilometers_per_hour\"", "speed_unit = \"furlongs_per_fortnight\"", t),
+        app("access_unknown", "access", "\n[access]\ntype = \"teleport\"\n".to_string(), t),
+        rep("cost_bad_aggregation", "cost", "cost_aggregation = \"sum\"", "cost_aggregation = \"median\"", t),
+        app("frontier_unknown", "frontier", "\n[frontier]\ntype = \"wild_west\"\n".to_string(), t),
+        app("termination_unknown", "termination", "\n[termination]\ntype = \"never\"\n".to_string(), t),
+        app("termination_negative", "termination", "\n[termination]\ntype = \"iterations\"\nlimit = -5\n".to_string(), t),
+        app("termination_iterations", "", "\n[termination]\ntype = \"iterations\"\nlimit = 50\n".to_string(), f),
+        rep("graph_section_without_files", "graph", &format!("edge_list_input_file = \"{}/edges.csv\"\n", d), "", t),
+        rep("input_plugin_unknown", "input_plugins", plug, "input_plugins = [{ type = \"crystal_ball\" }, ", t),
+        rep("input_plugin_without_type", "input_plugins", plug, "input_plugins = [{ key = \"k\" }, ", t),
+        rep("input_plugins_not_a_list", "input_plugins", plug, "input_plugins = 7 # [", t),
+        rep("inject_toml_format", "input_plugins", plug, "input_plugins = [{ type = \"inject\", key = \"k\", value = \"a = 1\", format = \"toml\" }, ", t),
+        rep("inject_bad_json", "input_plugins", plug, "input_plugins = [{ type = \"inject\", key = \"k\", value = \"{oops\", format = \"json\" }, ", t),
+        rep("inject_string_format", "", plug, "input_plugins = [{ type = \"inject\", key = \"k\", value = \"plain\", format = \"string\" }, ", f),
+        rep("load_balancer_without_heuristic", "input_plugins", plug, "input_plugins = [{ type = \"load_balancer\" }, ", t),
+        rep("load_balancer_bad_heuristic", "input_plugins", plug, "input_plugins = [{ type = \"load_balancer\", weight_heuristic = { type = \"custom\", custom_weight_type = { type = \"categorical\" } } }, ", t),
+        rep("vertex_rtree_bad_tolerance_unit", "input_plugins", plug, &format!("input_plugins = [{{ type = \"vertex_rtree\", vertices_input_file = \"{}/vertices.csv\", distance_tolerance = 10.0, distance_unit = \"cubits\" }}, ", d), t),
+        rep("grid_search_plugin_extra_fields", "", plug, "input_plugins = [{ type = \"grid_search\", depth = 3 }, ", f),
+        rep("output_plugin_unknown", "output_plugins", "{ type = \"summary\" },", "{ type = \"horoscope\" },", t),
+        rep("traversal_plugin_bad_format", "output_plugins", "route = \"edge_id\"", "route = \"hologram\"", t),
+        rep("parallelism_string", "parallelism", "parallelism = ", "parallelism = \"many\" # ", t),
+        rep("parallelism_negative", "parallelism", "parallelism = ", "parallelism = -2 # ", t),
+        rep("parallelism_float", "", "parallelism = ", "parallelism = 2.5 # ", None),
+        rep("parallelism_numeric_string", "", "parallelism = ", "parallelism = \"3\" # ", None),
+        rep("orientation_unknown", "search_orientation", "search_orientation = \"vertex\"", "search_orientation = \"diagonal\"", t),
+        rep("orientation_wrong_type", "search_orientation", "search_orientation = \"vertex\"", "search_orientation = 3", t),
+        rep("persistence_unknown", "response_persistence_policy", "response_persistence_policy = \"persist_response_in_memory\"", "response_persistence_policy = \"forget_everything\"", t),
+        app("output_policy_unknown", "response_output_policy", "TOP:response_output_policy = { type = \"carrier_pigeon\" }".to_string(), t),
+        app("output_policy_file", "", format!("TOP:response_output_policy = {{ type = \"file\", filename = \"{}/configured_sink.json\", format = {{ type = \"json\", newline_delimited = true }} }}", d), f),
+        app("output_policy_file_missing_format", "response_output_policy", format!("TOP:response_output_policy = {{ type = \"file\", filename = \"{}/x.json\" }}", d), t),
+    ]
+}
+
+/// build from the TOML text and from the file, in a child: ("ok <parallelism>" | "err <text>" | "panic" | "dead") twice
+fn build_in_child(toml: &str, path: &Path, count: &mut dyn FnMut()) -> (String, String) {
+    let p = path.to_str().unwrap_or_default().to_string();
+    let _ = std::fs::write(path, toml);
+    let mut run = |secs: u32| {
+        fork_text(secs, &mut |emit| {
+            let r = std::panic::catch_unwind(std::panic::AssertUnwindSafe(|| CompassApp::try_from_config_toml_string(toml.to_string(), p.clone(), &CompassAppBuilder::default())));
+            match r {
+                Err(_) => emit("B panic".to_string()),
+                Ok(Ok(app)) => emit(format!("B ok {}", app.parallelism)),
+                Ok(Err(e)) => emit(format!("B err {}", hex(&e.to_string()))),
+            }
+            // the same configuration through the file entry point (TryFrom<&Path>, read_config_from_file)
+            let r = std::panic::catch_unwind(std::panic::AssertUnwindSafe(|| CompassApp::try_from(Path::new(&p))));
+            match r {
+                Err(_) => emit("P panic".to_string()),
+                Ok(Ok(app)) => emit(format!("P ok {}", app.parallelism)),
+                Ok(Err(e)) => emit(format!("P err {}", hex(&e.to_string()))),
+            }
+            emit("END".to_string());
+        })
+    };
+    let mut text = run(30);
+    if !text.contains("\nEND") {
+        count();
+        text = run(180);
+    }
+    let mut built = String::from("dead");
+    let mut path_built = String::from("dead");
+    for line in text.lines() {
+        if let Some(r) = line.strip_prefix("B ") {
+            built = match r.strip_prefix("err ") {
+                Some(h) => format!("err {}", unhex(h).unwrap_or_default()),
+                None => r.to_string(),
+            };
+        }
+        if let Some(r) = line.strip_prefix("P ") {
+            path_built = match r.strip_prefix("err ") {
+                Some(h) => format!("err {}", unhex(h).unwrap_or_default()),
+                None => r.to_string(),
+            };
+        }
+    }
+    (built, path_built)
+}
+
+fn config_stream(ctx: &mut Ctx, root: &Path, tag: u64) {
+    let rounds = ctx.n(1, 4);
+    for round in 0..rounds {
+        let mut rng = Rng::for_case(ctx.seed, tag * 100 + 9, round as u64);
+        let dir = root.join(format!("cfg{}", round));
+        let n_vertices = 12 + rng.below(10);
+        let net = gen_net(&mut rng, n_vertices);
+        write_net(&dir, &net);
+        let d = dir.to_str().unwrap_or_default().to_string();
+        let plugins = vec![PluginSpec::Grid, PluginSpec::LbNum { col: Some(LB_COL.to_string()) }];
+        let base = config_toml(&dir, 1 + rng.below(8), Traversal::Speed, &plugins, true, false, None);
+        let path = dir.join("config.toml");
+        let muts = config_mutations(&d);
+        let mut single_err: Vec<Option<String>> = vec![];
+        let stage_line = |failing: &[&str]| {
+            let mut s = format!("stages {}", STAGES.len());
+            for st in STAGES {
+                s.push_str(&format!(" {} {}", st, if failing.contains(&st) { 1 } else { 0 }));
+            }
+            s
+        };
+        // one defect at a time
+        for m in &muts {
+            let Some(idx) = ctx.begin() else {
+                single_err.push(None);
+                continue;
+            };
+            let toml = apply_mutation(&base, m);
+            let mut retried = false;
+            let (built, path_built) = build_in_child(&toml, &path, &mut || retried = true);
+            if retried {
+                ctx.count("child_retried");
+            }
+            single_err.push(built.strip_prefix("err ").map(|e| e.to_string()));
+            let failing: Vec<&str> = if m.stage.is_empty() { vec![] } else { vec![m.stage] };
+            let impl_line = if built.starts_with("ok") {
+                "ok".to_string()
+            } else if built.starts_with("err") {
+                // a single defect: the stage is the one the edit breaks (the pairs below check the order)
+                format!("err {}", if m.stage.is_empty() { "?" } else { m.stage })
+            } else {
+                built.clone()
+            };
+            ctx.emit(idx, stage_line(&failing), impl_line);
+            ctx.count(&format!("config_{}", m.name));
+            config_oracle(ctx, idx, m.name, m.must, &built, &path_built);
+            if built.starts_with("err") {
+                ctx.nontrivial(&format!("cfg|{}", m.name));
+            }
+        }
+        // two defects at once: the error reported must be the one of the earlier stage
+        let breaking: Vec<usize> = (0..muts.len()).filter(|i| !muts[*i].stage.is_empty() && muts[*i].stage != "config").collect();
+        let pairs = ctx.n(12, 60);
+        for _ in 0..pairs {
+            let a = breaking[rng.below(breaking.len())];
+            let b = breaking[rng.below(breaking.len())];
+            if muts[a].stage == muts[b].stage {
+                continue;
+            }
+            // both edits must still find their anchor text
+            let ta = apply_mutation(&base, &muts[a]);
+            let tab = apply_mutation(&ta, &muts[b]);
+            if tab == ta || apply_mutation(&base, &muts[b]) == base {
+                continue;
+            }
+            let (Some(ea), Some(eb)) = (&single_err[a], &single_err[b]) else { continue };
+            let Some(idx) = ctx.begin() else { continue };
+            let mut retried = false;
+            let (built, path_built) = build_in_child(&tab, &path, &mut || retried = true);
+            let impl_line = match built.strip_prefix("err ") {
+                Some(e) if norm_err(e) == norm_err(ea) => format!("err {}", muts[a].stage),
+                Some(e) if norm_err(e) == norm_err(eb) => format!("err {}", muts[b].stage),
+                Some(e) => format!("err ?{}", clip(e).replace(' ', "_")),
+                None => built.split(' ').next().unwrap_or("").to_string(),
+            };
+            ctx.emit(idx, stage_line(&[muts[a].stage, muts[b].stage]), impl_line.clone());
+            ctx.count("config_two_defects");
+            config_oracle(ctx, idx, "two_defects", Some(true), &built, &path_built);
+            ctx.nontrivial(&format!("cfg2|{}|{}", muts[a].name, muts[b].name));
+        }
+    }
+}
+
+/// an error text without what legitimately varies: the list of known names (HashMap order) and the file name the
+/// file entry point appends to a TOML syntax error
+fn norm_err(t: &str) -> String {
+    let t = t.split(", must be one of").next().unwrap_or(t).trim_end();
+    match (t.ends_with("config.toml"), t.rfind(" in ")) {
+        (true, Some(i)) => t[..i].trim_end().to_string(),
+        _ => t.to_string(),
+    }
+}
+
+fn config_oracle(ctx: &mut Ctx, idx: usize, name: &str, must: Option<bool>, built: &str, path_built: &str) {
+    match (built, must) {
+        ("dead", _) => ctx.fail(idx, "config/timeout", format!("building the application from the configuration `{}` did not return", name)),
+        ("panic", _) => ctx.fail(idx, "config/panic", format!("building the application from the configuration `{}` panicked", name)),
+        (b, Some(true)) if b.starts_with("ok") => ctx.fail(idx, "config/accepted-invalid", format!("the invalid configuration `{}` was accepted", name)),
+        (b, Some(false)) if b.starts_with("err") => ctx.fail(idx, "config/rejected-valid", format!("the valid configuration `{}` was rejected: {}", name, clip(b))),
+        _ => {}
+    }
+    if norm_err(built) != norm_err(path_built) {
+        ctx.fail(idx, "config/path-differs", format!("`{}`: from the TOML text: {}, from the file: {}", name, clip(built), clip(path_built)));
+    }
 }
